@@ -102,22 +102,31 @@ Section WithEnv.
         Ok (el1, r)
     end.
 
+  (* the table read inside generic_get_symbol<T>: entry [index] of the data [p]
+     of section header [s]; [num] is get_symbols_num() *)
+  Definition sym_get_core (c : cls) (enc : endian) (s : section) (p : ptr) (num index : N) : res (option sym) :=
+    match p with
+    | None => Ok None
+    | Some _ =>
+        if index <? num then
+          ent <- rd p (wrap64 (index * sh_entsize s)) (layout_sz (sym_layout c)) ;;
+          Ok (Some (dec_sym c enc ent))
+        else Ok None
+    end.
+
   (* generic_get_symbol<T>( index, ... ) *)
   Definition get_symbol (el : elfio) (symsec : N) (index : N) : res (elfio * option symview) :=
     '(el1, p, s) <- sec_data el symsec ;;
-    match p with
+    r <- sym_get_core (acls el1) (el_enc el1) s p (get_symbols_num el1 s) index ;;
+    match r with
     | None => Ok (el1, None)
-    | Some _ =>
-        if index <? get_symbols_num el1 s then
+    | Some y =>
           let c := acls el1 in
-          ent <- rd p (wrap64 (index * sh_entsize s)) (layout_sz (sym_layout c)) ;;
-          let y := dec_sym c (el_enc el1) ent in
           '(el2, nm) <- lookup_str el1 (wrap16 (sh_link s)) (st_name y) ;;
           Ok (el2, Some (mkSymview (match nm with Some n => n | None => [] end)
                                    (st_value y) (st_size y) (N.shiftr (st_info y) 4)
                                    (N.land (st_info y) 15) (st_shndx y) (st_other y)
                                    (match nm with Some _ => true | None => false end)))
-        else Ok (el1, None)
     end.
 
   Definition trunc_sym (c : cls) (y : sym) : sym :=
@@ -394,25 +403,36 @@ Section WithEnv.
 
   Record relview := mkRelview { rv_offset : N; rv_symbol : N; rv_type : N; rv_addend : N }.
 
-  (* get_entry( index, offset, symbol, type, addend ) *)
+  (* get_entry( index, offset, symbol, type, addend ) on section header [s] with
+     data [p] (what get_data() returns; only requested when all gates pass) *)
+  Definition rel_get_core (c : cls) (enc : endian) (s : section) (p : ptr) (index : N) : res (option relview) :=
+    if rel_entries_num s <=? index then Ok None
+    else
+      let is_rel := sh_type s =? SHT_REL in
+      let is_rela := sh_type s =? SHT_RELA in
+      if negb (is_rel || is_rela) then Ok None else
+      let lay := if is_rel then rel_layout c else rela_layout c in
+      if sh_entsize s <? layout_sz lay then Ok None else
+      ent <- rd p (wrap64 (index * sh_entsize s)) (layout_sz lay) ;;
+      let v := dec_fields enc lay ent in
+      let info := nthN v 1 0 in
+      let addend := if is_rel then 0 else sext (xw c) (nthN v 2 0) in
+      Ok (Some (mkRelview (nthN v 0 0) (r_sym c info) (r_type c info) addend)).
+
+  Definition rel_needs_data (c : cls) (s : section) (index : N) : bool :=
+    negb (rel_entries_num s <=? index) &&
+    ((sh_type s =? SHT_REL) || (sh_type s =? SHT_RELA)) &&
+    negb (sh_entsize s <? layout_sz (if sh_type s =? SHT_REL then rel_layout c else rela_layout c)).
+
   Definition rel_get_entry (el : elfio) (relsec : N) (index : N) : res (elfio * option relview) :=
     match get_sec el relsec with
     | None => Fault NullDeref
     | Some s =>
-        if rel_entries_num s <=? index then Ok (el, None)
-        else
-          let c := acls el in
-          let is_rel := sh_type s =? SHT_REL in
-          let is_rela := sh_type s =? SHT_RELA in
-          if negb (is_rel || is_rela) then Ok (el, None) else
-          let lay := if is_rel then rel_layout c else rela_layout c in
-          if sh_entsize s <? layout_sz lay then Ok (el, None) else
+        if rel_needs_data (acls el) s index then
           '(el1, p, s1) <- sec_data el relsec ;;
-          ent <- rd p (wrap64 (index * sh_entsize s)) (layout_sz lay) ;;
-          let v := dec_fields (el_enc el1) lay ent in
-          let info := nthN v 1 0 in
-          let addend := if is_rel then 0 else sext (xw c) (nthN v 2 0) in
-          Ok (el1, Some (mkRelview (nthN v 0 0) (r_sym c info) (r_type c info) addend))
+          r <- rel_get_core (acls el1) (el_enc el1) s p index ;;
+          Ok (el1, r)
+        else Ok (el, None)
     end.
 
   (* get_entry with symbol resolution — elfio_relocation.hpp:167-237 *)
@@ -524,26 +544,29 @@ Section WithEnv.
   Definition dyn_tag_no_value (tag : N) : bool :=
     (tag =? DT_NULL) || (tag =? DT_SYMBOLIC) || (tag =? DT_TEXTREL) || (tag =? DT_BIND_NOW).
 
-  (* generic_get_entry_dyn<T> *)
-  Definition dyn_raw_entry (el : elfio) (dynsec : N) (index : N) : res (elfio * N * N) :=
-    '(el1, p, s) <- sec_data el dynsec ;;
-    let c := acls el1 in
+  (* generic_get_entry_dyn<T> on section header [s] with data [p] *)
+  Definition dyn_raw_core (c : cls) (enc : endian) (s : section) (p : ptr) (index : N) : res (N * N) :=
     let lay := dyn_layout c in
     match p with
-    | None => Ok (el1, DT_NULL, 0)
+    | None => Ok (DT_NULL, 0)
     | Some _ =>
-        if sh_entsize s <? layout_sz lay then Ok (el1, DT_NULL, 0)
+        if sh_entsize s <? layout_sz lay then Ok (DT_NULL, 0)
         else if sh_entsize s =? 0 then Fault DivZero
-        else if wrap64 (sh_size s / sh_entsize s + (2 ^ 64 - 1)) <? index then Ok (el1, DT_NULL, 0)
+        else if wrap64 (sh_size s / sh_entsize s + (2 ^ 64 - 1)) <? index then Ok (DT_NULL, 0)
         else
           let off := wrap64 (index * sh_entsize s) in
-          if wrap64 (sh_size s + (2 ^ 64 - layout_sz lay)) <? off then Ok (el1, DT_NULL, 0)
+          if wrap64 (sh_size s + (2 ^ 64 - layout_sz lay)) <? off then Ok (DT_NULL, 0)
           else
             ent <- rd p off (layout_sz lay) ;;
-            let v := dec_fields (el_enc el1) lay ent in
+            let v := dec_fields enc lay ent in
             let tag := sext (xw c) (nthN v 0 0) in
-            Ok (el1, tag, if dyn_tag_no_value tag then 0 else nthN v 1 0)
+            Ok (tag, if dyn_tag_no_value tag then 0 else nthN v 1 0)
     end.
+
+  Definition dyn_raw_entry (el : elfio) (dynsec : N) (index : N) : res (elfio * N * N) :=
+    '(el1, p, s) <- sec_data el dynsec ;;
+    '(tag, value) <- dyn_raw_core (acls el1) (el_enc el1) s p index ;;
+    Ok (el1, tag, value).
 
   Definition dyn_is_string_tag (tag : N) : bool :=
     (tag =? DT_NEEDED) || (tag =? DT_SONAME) || (tag =? DT_RPATH) || (tag =? DT_RUNPATH).
@@ -567,18 +590,28 @@ Section WithEnv.
         end
       else Ok (el1, Some tag, Some (tag, value, [])).
 
-  Fixpoint dyn_count_loop (fuel : list N) (el : elfio) (dynsec : N) (i n : N) : res (elfio * N) :=
+  (* the counting loop of get_entries_num(): index of the first DT_NULL tag
+     (or n).  The tags come from the dynamic section's own data, which the
+     string look-ups made by get_entry() never change, so the count is computed
+     from the section alone and the look-ups are replayed afterwards for their
+     effect on the residency of the string section. *)
+  Fixpoint dyn_count_core (fuel : list N) (c : cls) (enc : endian) (s : section) (p : ptr) (i n : N) : res N :=
     if i <? n then
       match fuel with
       | [] => Fault Hang
       | _ :: f =>
-          '(el1, tag, _) <- dyn_get_entry_with el dynsec n i ;;
-          match tag with
-          | Some t => if t =? DT_NULL then Ok (el1, i) else dyn_count_loop f el1 dynsec (i + 1) n
-          | None => Ok (el1, i)       (* unreachable: i < n *)
-          end
+          '(tag, _) <- dyn_raw_core c enc s p i ;;
+          if tag =? DT_NULL then Ok i else dyn_count_core f c enc s p (i + 1) n
       end
-    else Ok (el, i).
+    else Ok i.
+
+  Fixpoint dyn_touch (fuel : list N) (el : elfio) (dynsec : N) (n : N) (i upto : N) : res elfio :=
+    if (i <=? upto) && (i <? n) then
+      match fuel with
+      | [] => Fault Hang
+      | _ :: f => '(el1, _, _) <- dyn_get_entry_with el dynsec n i ;; dyn_touch f el1 dynsec n (i + 1) upto
+      end
+    else Ok el.
 
   (* get_entries_num() with its cache *)
   Definition dyn_entries_num (el : elfio) (a : dyn_acc) : res (elfio * dyn_acc * N) :=
@@ -588,9 +621,10 @@ Section WithEnv.
         let needed := if class32 el then 8 else 16 in
         if (da_num a =? 0) && negb (sh_entsize s =? 0) && (needed <=? sh_entsize s) then
           let n := sh_size s / sh_entsize s in
-          '(el0, p, _) <- sec_data el (da_sec a) ;;
+          '(el0, p, s0) <- sec_data el (da_sec a) ;;
           let fuel := match p with Some b => 0 :: b | None => [0; 0] end in
-          '(el1, i) <- dyn_count_loop fuel el0 (da_sec a) 0 n ;;
+          i <- dyn_count_core fuel (acls el0) (el_enc el0) s0 p 0 n ;;
+          el1 <- dyn_touch fuel el0 (da_sec a) n 0 i ;;
           let num := N.min n (i + 1) in
           Ok (el1, mkDynAcc (da_sec a) num, num)
         else Ok (el, a, da_num a)
@@ -715,6 +749,10 @@ Section WithEnv.
   (* ================= arrays ================= *)
   Definition arr_entries_num (s : section) (w : N) : N := sh_size s / w.
 
+  Definition arr_get_core (enc : endian) (s : section) (p : ptr) (w : N) (index : N) : res (option N) :=
+    if arr_entries_num s w <=? index then Ok None
+    else v <- rd_word enc p (wrap64 (index * w)) (N.to_nat w) ;; Ok (Some v).
+
   Definition arr_get_entry (el : elfio) (sec : N) (w : N) (index : N) : res (elfio * option N) :=
     match get_sec el sec with
     | None => Fault NullDeref
@@ -722,8 +760,8 @@ Section WithEnv.
         if arr_entries_num s w <=? index then Ok (el, None)
         else
           '(el1, p, _) <- sec_data el sec ;;
-          v <- rd_word (el_enc el1) p (wrap64 (index * w)) (N.to_nat w) ;;
-          Ok (el1, Some v)
+          r <- arr_get_core (el_enc el1) s p w index ;;
+          Ok (el1, r)
     end.
 
   Definition arr_add_entry (el : elfio) (sec : N) (w : N) (address : N) : res elfio :=
